@@ -1,4 +1,4 @@
-use fr_core::{bgdeliver, exec, flushrace, narrate, prerace, prog, props, teardown};
+use fr_core::{bgdeliver, exec, flushrace, narrate, prerace, prog, props, reporterpanic, teardown};
 
 use std::collections::{BTreeMap, HashSet};
 use std::io::Write;
@@ -97,6 +97,9 @@ fn worker(args: &[String]) -> i32 {
     let known: Vec<String> = arg(args, "--known").map(|k| k.split("||").filter(|s| !s.is_empty()).map(|s| s.to_string()).collect()).unwrap_or_default();
     if variant == "teardown" {
         return teardown_worker(args, prop, seed, wid, cases, out, &known);
+    }
+    if variant == "reporterpanic" {
+        return reporterpanic_worker(seed, wid, cases, out, &known);
     }
     if variant == "flushrace" {
         return flushrace_worker(prop, seed, wid, cases, out, &known);
@@ -628,6 +631,58 @@ fn teardown_worker(args: &[String], prop: &str, seed: u64, wid: u64, cases: u32,
     0
 }
 
+fn rp_sig(f: &str) -> String {
+    format!("panic-after-reporter-failure:{}", f.split(':').next().unwrap_or("").trim())
+}
+
+fn reporterpanic_worker(seed: u64, wid: u64, cases: u32, out: &str, known: &[String]) -> i32 {
+    quiet_panics();
+    let strategy = reporterpanic::strategy();
+    let cfg = Config { cases, failure_persistence: None, max_shrink_iters: 60, ..Config::default() };
+    let mut runner = TestRunner::new_with_rng(cfg, TestRng::from_seed(RngAlgorithm::ChaCha, &seed_bytes(seed, wid, "reporterpanic")));
+    let start = std::time::Instant::now();
+    let st = std::cell::RefCell::new((0u64, HashSet::<u64>::new(), Vec::<serde_json::Value>::new(), false));
+    let res = runner.run(&strategy, |c| {
+        let fails = reporterpanic::run(&c);
+        let sigs: Vec<String> = fails.iter().map(|f| rp_sig(f)).collect();
+        let mut s = st.borrow_mut();
+        if !s.3 {
+            s.0 += 1;
+            use std::hash::{Hash, Hasher};
+            let mut h = std::collections::hash_map::DefaultHasher::new();
+            format!("{:?}", c).hash(&mut h);
+            if s.1.insert(h.finish()) && s.2.len() < 3 {
+                s.2.push(serde_json::to_value(&c).unwrap());
+            }
+        }
+        match sigs.iter().find(|s| !known.contains(s)) {
+            None => Ok(()),
+            Some(sig) => {
+                s.3 = true;
+                Err(TestCaseError::fail(sig.clone()))
+            }
+        }
+    });
+    let s = st.into_inner();
+    let mut failure = serde_json::Value::Null;
+    if let Err(TestError::Fail(reason, c)) = &res {
+        let fails = reporterpanic::run(c);
+        failure = json!({"signature": reason.to_string(), "program": c, "violations": fails.iter().map(|f| json!({"sig": rp_sig(f), "msg": f})).collect::<Vec<_>>()});
+    }
+    let mut nt: Vec<u64> = s.1.iter().cloned().collect();
+    nt.sort();
+    let res = json!({
+        "property": "C07", "variant": "reporterpanic", "cancelable": false, "seed": seed, "worker": wid,
+        "evaluations": s.0, "nontrivial_hashes": nt.iter().map(|h| format!("{:016x}", h)).collect::<Vec<_>>(),
+        "labels": {"reporter_failed_on_background_thread_case": s.0}, "excluded": {}, "known_hits": {}, "samples": s.2,
+        "records_delivered": 0, "ops_executed": 0, "ops_skipped": 0, "failure": failure,
+        "rule": "reporter state 'failed': a reporter installed with the real set_reporter (2 ms interval, either configuration) panics in its 1st-3rd report() call on the library's background thread; afterwards the host issues 1-7 generated calls (flush, set_reporter of a working reporter, roots with local scopes and children, cancel), each of which has to return without panicking; every case is non-trivial; distinct = hash of the case",
+        "wall_s": start.elapsed().as_secs_f64(),
+    });
+    std::fs::File::create(out).unwrap().write_all(serde_json::to_string(&res).unwrap().as_bytes()).unwrap();
+    0
+}
+
 fn teardown_sig(c08: bool, f: &str) -> String {
     if c08 {
         f.split(": ").next().unwrap_or("").to_string()
@@ -716,6 +771,13 @@ fn replay(args: &[String]) -> i32 {
             fails = prerace::install_and_check();
         }
         println!("{}", serde_json::to_string_pretty(&json!({"violations": fails.iter().map(|f| json!({"sig": prerace_sig(f), "msg": f})).collect::<Vec<_>>(), "narrative": []})).unwrap());
+        return if fails.is_empty() { 0 } else { 1 };
+    }
+    if v["variant"].as_str() == Some("reporterpanic") {
+        quiet_panics();
+        let c: reporterpanic::RpCase = serde_json::from_value(v["program"].clone()).expect("reporterpanic case");
+        let fails = reporterpanic::run(&c);
+        println!("{}", serde_json::to_string_pretty(&json!({"violations": fails.iter().map(|f| json!({"sig": rp_sig(f), "msg": f})).collect::<Vec<_>>(), "narrative": []})).unwrap());
         return if fails.is_empty() { 0 } else { 1 };
     }
     if v["variant"].as_str() == Some("teardown") {
